@@ -108,15 +108,37 @@ Definition withdraw_sidestep (s : state) (o : op) (fset : list addr) : bool :=
 
 (* per-block accumulators of the monitors: withdrawable of the previous block, amounts withdrawn in
    this block (observed ok), maturing entries the successful unstakes of this block must have created *)
-Record blockacc := BlockAcc { a_prev : list (addr * Z); a_w : gmap addr Z; a_exp : list (Z * (addr * Z)) }.
+Record blockacc := BlockAcc { a_prev : list (addr * Z); a_w : gmap addr Z; a_exp : list (Z * (addr * Z));
+                              a_pvt : list (addr * Z); a_dv : gmap addr Z }.
 Definition acc_step (a : blockacc) (o : op) (ok : bool) : blockacc :=
   if ok then
     match o with
-    | OWithdraw _ d x _ _ => BlockAcc (a_prev a) (zadd d x (a_w a)) (a_exp a)
-    | OUnstake _ d x _ _ h m _ _ => BlockAcc (a_prev a) (a_w a) ((h + m, (d, x)) :: a_exp a)
+    | OWithdraw _ d x _ _ => BlockAcc (a_prev a) (zadd d x (a_w a)) (a_exp a) (a_pvt a) (a_dv a)
+    | OUnstake v d x _ _ h m _ _ => BlockAcc (a_prev a) (a_w a) ((h + m, (d, x)) :: a_exp a) (a_pvt a) (zadd v (- x) (a_dv a))
+    | OStake v _ x _ _ _ _ _ _ => BlockAcc (a_prev a) (a_w a) (a_exp a) (a_pvt a) (zadd v x (a_dv a))
     | _ => a
     end
   else a.
+(* the penalty of a GUILTY verdict is exactly the configured share of the CONVICTED validator's own
+   total: observed st__t_ after the block = (observed total of the previous block + stakes - unstakes
+   accepted in this block) - penalty_amount of that total; unchanged when the model says the penalty
+   cannot be taken from the stake account of the previous version *)
+Definition mon_penalty (a : blockacc) (s : state) (o : op) (ob : obs) : bool :=
+  match o with
+  | OEnd h vs =>
+    if 1 <? h then
+      forallb (fun e => let '(v, pct, dec) := e in
+        match vprev s !! v with
+        | None => true
+        | Some r =>
+          let t := lget (a_pvt a) v + zget (a_dv a) v in
+          if Nat.eqb (snd (minus3 s v (vr_saddr r) (penalty_amount (zget (vtot s) v) pct dec))) 3
+          then lget (o_vtot ob) v =? t - penalty_amount t pct dec
+          else lget (o_vtot ob) v =? t
+        end) vs
+    else true
+  | _ => true
+  end.
 (* withdrawable changes exactly by what matured at this height minus what was withdrawn *)
 Definition mon_withdrawable (a : blockacc) (matured : list (addr * Z)) (ob : obs) : bool :=
   forallb (fun d => lget (o_dbnd ob) d - lget (a_prev a) d =? pend_of matured d - zget (a_w a) d)
@@ -169,13 +191,14 @@ Fixpoint go (c i : Z) (s : state) (g : ghosts) (a : blockacc) (l : list (op * ex
       let h := op_height o in
       let r := add_mon c i 18 (mon_withdrawable a (if 1 <? h then mat_at s h else []) ob) r in
       let r := add_mon c i 19 (mon_entries a h ob) r in
-      go c (i + 1) s' g (BlockAcc (o_dbnd ob) ∅ []) l' r
+      let r := add_mon c i 21 (mon_penalty a s o ob) r in
+      go c (i + 1) s' g (BlockAcc (o_dbnd ob) ∅ [] (o_vtot ob) ∅) l' r
     | ENone => go c (i + 1) s' (ghost_step g o true 0) a l' r
     end
   end.
 
 Definition run_case (c : Z) (l : list (op * expect)) : results :=
-  go c 0 empty_state (Ghosts ∅ ∅ ∅ ∅) (BlockAcc [] ∅ []) l ([], [], []).
+  go c 0 empty_state (Ghosts ∅ ∅ ∅ ∅) (BlockAcc [] ∅ [] [] ∅) l ([], [], []).
 
 Fixpoint run_cases (c : Z) (cs : list (list (op * expect))) : results :=
   match cs with
